@@ -8,4 +8,21 @@ LEVELS = {
           'the differential run as the tie to the Rust (inputs the generator did not produce are covered only by the proof about the model).',
   'technique': 'Lean 4 proof by induction over the validator list; function-level differential correspondence',
  },
+ 'C14': {
+  'text': 'Invariant of the reward contract proved in Lean for every message of every sender (induction step C14_inv_step, '
+          'base C14_inv_init): the sum over holders of (global_index - index)*balance + pending never exceeds prev_reward_balance*1e18; '
+          'a claim worth >= 1 unit always succeeds and pays exactly the whole units, keeping the fraction (C14_claim_pays); an index update '
+          'records exactly the bank balance and strands < total_balance atomics (C14_update_records_bank, C14_update_dust). '
+          'Tied to the Rust by differential histories (index updates, mints, burns, transfers, claims, zero-holder updates) and by the solvency oracle on every implementation step.',
+  'note': 'Trusted: Lean kernel; model of basset_sei_reward; that the bank credits the contract (A-CHAIN-2); prev <= bank balance is carried by the harness oracle across '
+          'contracts (the theorem covers the contract side: recorded balance := bank balance on update, lowered by exactly the payout on claim).',
+  'technique': 'Lean 4 invariant proof by case analysis over all reward-contract messages; differential correspondence + solvency oracle',
+ },
+ 'C15': {
+  'text': 'Exact accrual formula per index update (balance * floor(R*1e18/T)), additivity under account splitting, settlement before every balance change '
+          '(dues unchanged, checkpoint moved), independence from claims and commutation of other holders\' balance changes: proved in Lean for all states '
+          'satisfying the C14 invariant. Re-evaluated on every implementation step from public queries; model/implementation compared on every operation.',
+  'note': 'Trusted: Lean kernel; model of basset_sei_reward/user.rs+global.rs; the invariant premise is C14. Paired-history (permutation) runs on the implementation are represented by the per-step dues oracle, not by whole-history pairs.',
+  'technique': 'Lean 4 algebraic theorems over the reward state machine; per-step oracle on the implementation',
+ },
 }
